@@ -601,9 +601,14 @@ def _truediv(a, b):
             a = symx._to_fraction(a)
         if isinstance(b, float):
             b = symx._to_fraction(b)
-        if isinstance(b, (int, Fraction)) and not isinstance(a, Sym):
+        if isinstance(b, (int, Fraction)):
             if b == 0:
+                if _ERRSTATE_IGNORE[0]:
+                    return float('nan')
                 raise ShimGap('numpy division by zero (inf/nan)')
+        elif isinstance(b, Sym) and _ERRSTATE_IGNORE[0]:
+            if b == 0:          # explicit path: numpy gives inf/nan here, no exception
+                return float('nan')
         return a / b
     else:
         if isinstance(a, (int, Fraction)):
@@ -802,16 +807,26 @@ def append(arr, values, axis=None):
     return concatenate((a, v))
 
 
+_ERRSTATE_IGNORE = [0]
+
+
 class errstate:
-    """np.errstate(...): floating-point warnings do not exist here; a no-op context."""
+    """np.errstate(...): floating-point warnings do not exist here.  The context only records that the
+    code declared division by zero / invalid operations as expected (divide= or invalid= 'ignore'):
+    inside it an exact division by zero gives nan (a value the code is then expected to discard, e.g.
+    through np.where) instead of ending the path with a shim gap."""
 
     def __init__(self, **kw):
-        pass
+        self._ignore = any(kw.get(k) == 'ignore' for k in ('divide', 'invalid', 'all'))
 
     def __enter__(self):
+        if self._ignore:
+            _ERRSTATE_IGNORE[0] += 1
         return self
 
     def __exit__(self, *a):
+        if self._ignore:
+            _ERRSTATE_IGNORE[0] -= 1
         return False
 
 
@@ -1193,7 +1208,7 @@ def _is_zero(x):
     return not isinstance(x, Sym) and x == 0
 
 
-def allclose(a, b, rtol=Fraction(1, 100000), atol=Fraction(1, 100000000)):
+def allclose(a, b, rtol=Fraction(1, 100000), atol=Fraction(1, 100000000), _elementwise=False):
     """|a - b| <= atol + rtol * |b| element-wise (numpy's definition)."""
     a = asarray(a) if isinstance(a, (ndarray, list, tuple)) else a
     b = asarray(b) if isinstance(b, (ndarray, list, tuple)) else b
@@ -1215,14 +1230,17 @@ def allclose(a, b, rtol=Fraction(1, 100000), atol=Fraction(1, 100000000)):
         bound = atol + rtol * abs(y)
         return _and(d <= bound, -d <= bound)
     if isinstance(a, ndarray):
-        return all_(a._binop(b, close, 'b'))
+        r = a._binop(b, close, 'b')
+        return r if _elementwise else all_(r)
     if isinstance(b, ndarray):
-        return all_(b._binop(a, lambda y, x: close(x, y), 'b'))
+        r = b._binop(a, lambda y, x: close(x, y), 'b')
+        return r if _elementwise else all_(r)
     return close(a, b)
 
 
 def isclose(a, b, rtol=Fraction(1, 100000), atol=Fraction(1, 100000000)):
-    return allclose(a, b, rtol, atol)
+    """np.isclose: the element-wise flags (a boolean array for array arguments, one flag for scalars)."""
+    return allclose(a, b, rtol, atol, _elementwise=True)
 
 
 def interp(x, xp, fp):
@@ -1278,6 +1296,15 @@ def log(a):
     return libstubs.sym_log(a)
 
 
+def expm1(a):
+    """exp(a) - 1 (the rounding advantage of expm1 does not exist in exact arithmetic)."""
+    return exp(a) - 1
+
+
+def log1p(a):
+    return log(a + 1)
+
+
 def sqrt(a):
     raise ShimGap('sqrt')
 
@@ -1306,7 +1333,7 @@ class _Shim:
         for name in ('array', 'asarray', 'zeros', 'empty', 'ones', 'linspace', 'arange', 'diff',
                      'concatenate', 'cumsum', 'nonzero', 'argwhere', 'minimum', 'maximum',
                      'isfinite', 'isnan', 'isscalar', 'ceil', 'floor', 'absolute', 'dot',
-                     'allclose', 'isclose', 'interp', 'sort', 'argsort', 'exp', 'log', 'mean',
+                     'allclose', 'isclose', 'interp', 'sort', 'argsort', 'exp', 'log', 'expm1', 'log1p', 'mean',
                      'issubdtype', 'nan', 'inf'):
             setattr(self, name, g[name])
         self.abs = absolute
